@@ -1,3 +1,140 @@
-From Ebu Require Import Store.Lex.
-Theorem C10_placeholder : True. Proof. exact I. Qed.
-Print Assumptions C10_placeholder.
+(* C10 — Every bundled store behaves as one append-only, resumable log.
+   Position k of a store = "after the k-th appended event"; 0 = OffsetOldest. *)
+From Coq Require Import List NArith ZArith Bool.
+Import ListNotations.
+From Ebu Require Import Store.Lex Store.StoreModel Store.StoreProofs Corr.CorrStore.
+
+(* --- MemoryStore --- *)
+(* Append returns the zero-padded counter, lexicographically above every earlier offset
+   (counter below 10^20; int64 cannot exceed it). *)
+Theorem C10_mem_offsets_increase_lex : forall s p,
+  mem_wf s -> (m_next s + 1 < W)%N ->
+  snd (mem_append s p) = pad 20 (m_next s + 1) /\
+  forall e, In e (m_events s) -> lexlt (e_off e) (snd (mem_append s p)) = true.
+Proof. exact mem_offsets_increase. Qed.
+Print Assumptions C10_mem_offsets_increase_lex.
+
+Theorem C10_mem_wf_preserved : forall s p, mem_wf s -> mem_wf (fst (mem_append s p)).
+Proof. exact mem_wf_append. Qed.
+Print Assumptions C10_mem_wf_preserved.
+
+(* Read(o, n) from any issued offset (or oldest) returns the first n (all if n <= 0) events after it *)
+Theorem C10_mem_read_spec : forall s k limit,
+  mem_wf s -> (m_next s < W)%N -> k <= length (m_events s) ->
+  mem_read s (mem_off k) limit =
+  (take limit (skipn k (m_events s)), last_off (mem_off k) (take limit (skipn k (m_events s)))).
+Proof. exact mem_read_spec. Qed.
+Print Assumptions C10_mem_read_spec.
+
+(* ... and the next offset it returns denotes the position after the returned events *)
+Theorem C10_mem_next_offset : forall s k l, mem_wf s -> k + length l <= length (m_events s) ->
+  l = firstn (length l) (skipn k (m_events s)) -> last_off (mem_off k) l = mem_off (k + length l).
+Proof. exact mem_last_off. Qed.
+Print Assumptions C10_mem_next_offset.
+
+Theorem C10_mem_stream_eq_read : forall s k,
+  mem_wf s -> (m_next s < W)%N -> k <= length (m_events s) ->
+  mem_stream s (mem_off k) = fst (mem_read s (mem_off k) 0%Z).
+Proof. exact mem_stream_eq_read. Qed.
+Print Assumptions C10_mem_stream_eq_read.
+
+(* --- any store meeting the read specification: chains of reads with arbitrary limits reproduce the
+   log with no gap and no repeat, and a read that returns nothing means the end was reached --- *)
+Theorem C10_chain : forall (log : list sev) (off_at : nat -> offset) (read : offset -> Z -> list sev * offset),
+  (forall k limit, k <= length log ->
+     read (off_at k) limit = (take limit (skipn k log), off_at (k + length (take limit (skipn k log))))) ->
+  forall limits k, k <= length log ->
+  let '(evs, k') := chain off_at read k limits in
+  evs = firstn (k' - k) (skipn k log) /\ k <= k' <= length log.
+Proof. exact chain_segment. Qed.
+Print Assumptions C10_chain.
+
+Theorem C10_chain_complete : forall (log : list sev) (off_at : nat -> offset) (read : offset -> Z -> list sev * offset),
+  (forall k limit, k <= length log ->
+     read (off_at k) limit = (take limit (skipn k log), off_at (k + length (take limit (skipn k log))))) ->
+  forall k limit, k <= length log -> fst (read (off_at k) limit) = [] -> skipn k log = [].
+Proof. exact empty_read_is_end. Qed.
+Print Assumptions C10_chain_complete.
+
+(* --- SQLiteStore --- *)
+(* numeric order: positions strictly increase, are never reused, and the offset parses back *)
+Theorem C10_sqlite_offsets_increase_numeric : forall s p,
+  sq_wf s -> (q_seq s + 1 <= 9223372036854775807)%Z ->
+  parse_int (snd (sq_append s p)) = Some (q_seq s + 1)%Z /\
+  forall r, In r (q_rows s) -> (fst r < q_seq s + 1)%Z.
+Proof. exact sq_offsets_increase_numeric. Qed.
+Print Assumptions C10_sqlite_offsets_increase_numeric.
+
+(* the full statement (lexicographic order) is FALSE for SQLite's unpadded decimal offsets: known finding *)
+Theorem C10_sqlite_offsets_increase_lex_refuted :
+  exists pays p, let s := fold_left (fun s x => fst (sq_append s x)) pays sq_init in
+  exists r, In r (q_rows s) /\ lexlt (fmt_pos (fst r)) (snd (sq_append s p)) = false.
+Proof.
+  exists [0;0;0;0;0;0;0;0;0], 0. cbv zeta. exists (9%Z, 0). split; [vm_compute; tauto|vm_compute; reflexivity].
+Qed.
+Print Assumptions C10_sqlite_offsets_increase_lex_refuted.
+
+Theorem C10_sqlite_read_spec : forall s k limit,
+  sq_wf s -> (Z.of_nat k <= 9223372036854775807)%Z ->
+  sq_read s (sq_off k) limit =
+  Some (take limit (skipn k (sq_events s)), last_off (sq_off k) (take limit (skipn k (sq_events s)))).
+Proof. exact sq_read_spec. Qed.
+Print Assumptions C10_sqlite_read_spec.
+
+Theorem C10_sqlite_stream_eq_read : forall s k,
+  sq_wf s -> (Z.of_nat k <= 9223372036854775807)%Z ->
+  sq_stream s (sq_off k) = option_map fst (sq_read s (sq_off k) 0%Z).
+Proof. exact sq_stream_eq_read. Qed.
+Print Assumptions C10_sqlite_stream_eq_read.
+
+Theorem C10_decimal_roundtrip : forall p, (0 <= p <= 9223372036854775807)%Z -> parse_int (fmt_pos p) = Some p.
+Proof. exact parse_fmt_pos. Qed.
+Print Assumptions C10_decimal_roundtrip.
+
+(* --- durable-streams store: the full statement is FALSE for the faithful model (known findings F8a-c);
+   witnesses judged by the same oracle the correspondence check uses --- *)
+Theorem C10_dstream_limit_truncation_refuted :
+  let ops := [SAppend 0 0; SAppend 0 1; SAppend 0 2; SRead 0 [] 2%Z] in
+  ok10 ops (run_init ds (ds_impl 0) ops) = false /\ known_masks [2; 4; 8; 6; 10; 12; 14] ops (run_init ds (ds_impl 0) ops) = 2.
+Proof. vm_compute. split; reflexivity. Qed.
+Print Assumptions C10_dstream_limit_truncation_refuted.
+
+Theorem C10_dstream_event_offsets_refuted :
+  let ops := [SAppend 0 0; SAppend 0 1; SRead 0 [] 0%Z; SRead 0 (ds_off 2 ++ [47%N; 48%N]) 0%Z] in
+  ok10 ops (run_init ds (ds_impl 0) ops) = false /\ known_masks [2; 4; 8; 6; 10; 12; 14] ops (run_init ds (ds_impl 0) ops) = 4.
+Proof. vm_compute. split; reflexivity. Qed.
+Print Assumptions C10_dstream_event_offsets_refuted.
+
+Theorem C10_dstream_pagination_refuted :
+  let ops := [SAppend 0 0; SAppend 0 1; SAppend 0 2; SRead 0 [] 0%Z] in
+  ok10 ops (run_init ds (ds_impl 2) ops) = false /\ known_masks [2; 4; 8; 6; 10; 12; 14] ops (run_init ds (ds_impl 2) ops) = 8.
+Proof. vm_compute. split; reflexivity. Qed.
+Print Assumptions C10_dstream_pagination_refuted.
+
+(* what does hold (partial): with whole-chunk reads resumed from next offsets, the oracle accepts *)
+Example C10_dstream_partial_example :
+  let ops := [SAppend 0 0; SAppend 0 1; SAppend 0 2; SRead 0 [] 0%Z; SAppend 0 3; SRead 0 (ds_off 3) 0%Z; SRead 0 (ds_off 4) 5%Z] in
+  ok_walk (flags_of_mask 4) (o_init, o_init) ops (run_init ds (ds_impl 0) ops) = true.
+Proof. vm_compute. reflexivity. Qed.
+
+(* --- subscription offsets and isolation --- *)
+Theorem C10_offset_store : forall s id o, mem_load (mem_save s id o) id = o.
+Proof. exact mem_offset_store. Qed.
+Print Assumptions C10_offset_store.
+
+Theorem C10_offset_store_other : forall s id id' o, id <> id' -> mem_load (mem_save s id o) id' = mem_load s id'.
+Proof. exact mem_offset_store_other. Qed.
+Print Assumptions C10_offset_store_other.
+
+Theorem C10_isolation : forall (S : Type) (I : store_impl S) (st : S * S) (o : sop),
+  (Nat.eqb (store_of o) 0 = true -> snd (fst (step S I st o)) = snd st) /\
+  (Nat.eqb (store_of o) 0 = false -> fst (fst (step S I st o)) = fst st).
+Proof. exact stores_isolated. Qed.
+Print Assumptions C10_isolation.
+
+Example C10_nonvacuous :
+  let s := fold_left (fun s x => fst (mem_append s x)) [7; 8; 9] mem_init in
+  mem_wf s /\ map e_pay (fst (mem_read s (mem_off 1) 1%Z)) = [8] /\ snd (mem_read s (mem_off 1) 1%Z) = mem_off 2.
+Proof.
+  cbv zeta. split; [repeat apply mem_wf_append; apply mem_wf_init|]. split; vm_compute; reflexivity.
+Qed.
